@@ -242,6 +242,17 @@ func (m *Manager) RouteAllTrafficToNewVersion(c *TrafficRoutingContext) (bool, e
 	// build up the network provider
 	stableService := c.ObjectRef[0].Service
 	cServiceName := getCanaryServiceName(stableService, c.OnlyTrafficRouting, c.DisableGenerateCanaryService)
+	if cServiceName != stableService {
+		// no step of this release routed traffic, so the canary service was never created:
+		// sending all traffic to it would send it nowhere
+		err := m.Get(context.TODO(), client.ObjectKey{Namespace: c.Namespace, Name: cServiceName}, &corev1.Service{})
+		if errors.IsNotFound(err) {
+			klog.Infof("%s canary service(%s) does not exist, no need to route traffic to it", c.Key, cServiceName)
+			return false, nil
+		} else if err != nil {
+			return false, err
+		}
+	}
 	trController, err := newNetworkProvider(m.Client, c, stableService, cServiceName)
 	if err != nil {
 		klog.Errorf("%s newTrafficRoutingController failed: %s", c.Key, err.Error())
